@@ -152,7 +152,7 @@ PLAN = {
              "distinct text/row",
     ),
     "C17": dict(
-        streams=[("codec", 12000, 120000), ("std", 6000, 60000)],
+        streams=[("corpus", 0, 0), ("codec", 12000, 120000), ("std", 6000, 60000), ("e2x", 0, 0)],
         theorems=[],
         facts=[F + "safeSet_eq", F + "htmlSafeSet_eq", F + "hex_eq", F + "useNumber_eq"],
         rule="the embedded codec's Compact/Indent/HTMLEscape/Unmarshal+MarshalEscaped/UnmarshalWithKeys/Marshal(string) on generated and "
